@@ -1,7 +1,9 @@
 package database
 
 import (
+	"maps"
 	"math"
+	"slices"
 	"sort"
 	"strings"
 	"unicode"
@@ -180,7 +182,7 @@ func (db *Database) filterAndSortTerms(list []termWithScore, maxTerms int) []str
 	// Add enhanced terms by IDF score to fill remaining slots
 	remaining := maxTerms - len(out)
 	if remaining > 0 && len(enhancedList) > 0 {
-		sort.Slice(enhancedList, func(i, j int) bool {
+		sort.SliceStable(enhancedList, func(i, j int) bool {
 			return enhancedList[i].idf > enhancedList[j].idf
 		})
 		for i := 0; i < utils.Min(remaining, len(enhancedList)); i++ {
@@ -318,7 +320,7 @@ func (db *Database) SearchUniversal(query string, options SearchOptions) []Searc
 	results := db.collectResults(scores, pq, options)
 
 	// Sort preliminarily
-	sort.Slice(results, func(i, j int) bool { return results[i].Score > results[j].Score })
+	sort.SliceStable(results, func(i, j int) bool { return results[i].Score > results[j].Score })
 
 	// Apply all post-scoring boosts (NLP reranking, cascading, semantic)
 	results = db.applyPostScoringBoosts(results, pq, query, options)
@@ -486,7 +488,11 @@ func indexCommand(cmd *Command) (uniqueLens docLens, termFreqs map[string]fieldT
 
 func (db *Database) collectResults(scores map[int]float64, pq *nlp.ProcessedQuery, options SearchOptions) []SearchResult {
 	results := make([]SearchResult, 0, utils.BufferCap(len(scores), options.Limit, 3))
-	for docID, score := range scores {
+	// Walk the documents in database order (not in map order): together with the
+	// stable sorts below, commands whose scores tie keep their database order, so
+	// the same search always gives the same answer.
+	for _, docID := range slices.Sorted(maps.Keys(scores)) {
+		score := scores[docID]
 		cmd := &db.Commands[docID]
 
 		// Apply intent-based boost if NLP is active
@@ -532,7 +538,7 @@ func (db *Database) rerankWithNLP(results []SearchResult, query string, options 
 		}
 	}
 	// Resort after blending
-	sort.Slice(topK, func(i, j int) bool { return topK[i].Score > topK[j].Score })
+	sort.SliceStable(topK, func(i, j int) bool { return topK[i].Score > topK[j].Score })
 	return topK
 }
 
@@ -708,7 +714,7 @@ func (db *Database) applySemanticBoost(results []SearchResult, query string) []S
 	}
 
 	// Re-sort after applying semantic boost
-	sort.Slice(results, func(i, j int) bool {
+	sort.SliceStable(results, func(i, j int) bool {
 		return results[i].Score > results[j].Score
 	})
 
